@@ -595,7 +595,8 @@ TODO: add tests for all these
 
 // range-set ::= range ( logical-or range ) *
 fn range_set<'s>(input: &mut &'s str) -> PResult<Range, SemverParseError<&'s str>> {
-    Parser::try_map(bound_sets, |sets| {
+    // Blanks around a range set carry no meaning (node-semver trims them).
+    Parser::try_map(preceded(space0, bound_sets), |sets| {
         if sets.is_empty() {
             Err(SemverParseError {
                 input,
